@@ -88,25 +88,29 @@ def _observe_handle(case):
 
 
 def observe(case):  # noqa: F811
+    if case.get("family") == "oddsrc":
+        return _observe_odd(case)
     if case.get("family") == "handle":
         return _observe_handle(case)
     return s1.observe(case)
 
 
 def model_request(case):  # noqa: F811
-    if case.get("family") == "handle":
+    if case.get("family") in ("handle", "oddsrc"):
         return None
     return s1.model_request(case)
 
 
 def features(case, obs):  # noqa: F811
+    if case.get("family") == "oddsrc":
+        return ["oddsrc=" + case["bad"], "tool=" + case["tool"]]
     if case.get("family") == "handle":
         return ["handle=" + case["handle"], "kind=" + case["srcs"][0]["kind"]]
     return s1.features(case, obs)
 
 
 def nontrivial(case, obs):  # noqa: F811
-    if case.get("family") == "handle":
+    if case.get("family") in ("handle", "oddsrc"):
         return True
     return s1.nontrivial(case, obs)
 
@@ -135,6 +139,7 @@ def _judge_handle(case, obs):
 
 def cases(tier, rng):
     yield from _handle_cases(tier)
+    yield from _odd_cases()
     n = 0
     for case in s1.base_cases(tier, rng, s1.KINDS_ASYNC, s1.cons_cuts_and_throws, maxlen=3 if tier == "quick" else 4):
         if case["tool"] == "islice" and (case["params"].get("step", 1) == 3 or (case["params"].get("stop") or 0) > 3):
@@ -152,6 +157,8 @@ def _proj(vis, out):
 
 def judge(case, obs, model):
     issues = []
+    if case.get("family") == "oddsrc":
+        return _judge_odd(case, obs)
     if case.get("family") == "handle":
         return _judge_handle(case, obs)
     a = obs["async"]
@@ -189,3 +196,95 @@ def search_cases(broken, rng):
             c["srcs"] = [dict(s, kind=kind) for s in case["srcs"]]
             yield c
     yield from s1.random_cases("quick", rng, s1.KINDS_ASYNC, 4000, faults=True)
+
+
+# ---- sources that fail outside their __anext__: a raising aclose(), a raising __aiter__ ----------------------------------
+# Oracle-only (the Lean models carry hypothesis H-close): when one source's own aclose() raises while the tool is being
+# closed / is failing, or one iterable's __aiter__ raises when the tool starts, every OTHER async iterator handed to the
+# tool must still be closed or exhausted when that close / raise completes.
+
+
+class _OddSource:
+    """class-based async iterator over `items`; `bad`: None | "close" (aclose raises after closing) | "aiter" (__aiter__ raises)"""
+
+    def __init__(self, items, bad, name):
+        self.items, self.bad, self.name = list(items), bad, name
+        self.i, self.closes, self.ended = 0, 0, 0
+
+    def __aiter__(self):
+        if self.bad == "aiter":
+            from world import user_exc
+            raise user_exc(40 + self.name)
+        return self
+
+    async def __anext__(self):
+        if self.i >= len(self.items):
+            self.ended += 1
+            raise StopAsyncIteration
+        self.i += 1
+        return self.items[self.i - 1]
+
+    async def aclose(self):
+        self.closes += 1
+        if self.bad == "close":
+            from world import user_exc
+            raise user_exc(48 + self.name)
+
+    def released(self):
+        return self.closes > 0 or self.ended > 0
+
+
+_ODD_TOOLS = {
+    "zip": lambda A, S: A.zip(*S), "zip_strict": lambda A, S: A.zip(*S, strict=True), "map": lambda A, S: A.map(lambda *a: a, *S),
+    "zip_longest": lambda A, S: A.zip_longest(*S), "merge": lambda A, S: A.merge(*S), "chain": lambda A, S: A.chain(*S),
+    "compress": lambda A, S: A.compress(S[0], S[1]),
+}
+
+
+def _odd_cases():
+    for tool in _ODD_TOOLS:
+        for nsrc in ((2,) if tool == "compress" else (2, 3)):
+            for bad_at in range(nsrc):
+                for bad in ("close", "aiter"):
+                    for take in (1, 2):          # the tool is advanced at least once ("once a library iterator has been advanced")
+                        for fin in ("close", "exhaust"):
+                            yield {"tool": tool, "family": "oddsrc", "nsrc": nsrc, "bad_at": bad_at, "bad": bad, "take": take, "fin": fin,
+                                   "params": {}, "srcs": [{"kind": "aobj", "script": []}], "fns": [], "cons": {"fin": fin}}
+
+
+def _observe_odd(case):
+    from world import Item, asyncstdlib, drive, exc_name
+    S = [_OddSource([Item(10 * i + j, j + 1) for j in range(3)], case["bad"] if i == case["bad_at"] else None, i)
+         for i in range(case["nsrc"])]
+    outs = []
+    try:
+        it = _ODD_TOOLS[case["tool"]](asyncstdlib, S)
+    except BaseException as exc:  # noqa: B036
+        return {"construct": exc_name(exc), "srcs": [[s.released(), s.i] for s in S], "outs": [],
+                "async": {"out": ["raised", exc_name(exc)], "vis": [], "srcs": []}}
+    n = 0
+    while case["fin"] == "exhaust" or n < case["take"]:
+        r = drive(it.__anext__())
+        n += 1
+        if r.exc is not None:
+            outs.append(["end", exc_name(r.exc) if not isinstance(r.exc, StopAsyncIteration) else "stop"])
+            break
+        outs.append(["item"])
+    r = drive(it.aclose())
+    outs.append(["aclose", exc_name(r.exc)])
+    return {"construct": None, "outs": outs, "srcs": [[s.released(), s.i] for s in S],
+            "async": {"out": ["closed"], "vis": [], "srcs": []}}
+
+
+def _judge_odd(case, obs):
+    leaked = [i for i, (rel, pulled) in enumerate(obs["srcs"]) if not rel and i != case["bad_at"]]
+    if case["bad"] == "aiter":
+        if obs["construct"] is not None:
+            return []          # the tool could not even be constructed: nothing was advanced
+        # iterables after the failing one were never touched by the tool (cf. known finding D19 for chain): only the
+        # iterators the tool had already obtained are demanded
+        leaked = [i for i in leaked if i < case["bad_at"]]
+    if leaked:
+        return [Issue("oracle", {"leaked": leaked, "srcs": obs["srcs"], "outs": obs["outs"]},
+                      "other-sources-leaked-when-%s-raises:%s" % ("aclose" if case["bad"] == "close" else "aiter", case["tool"]))]
+    return []
